@@ -22,6 +22,17 @@ def site_of(e: BaseException) -> str:
     return site
 
 
+def entry_of(e: BaseException) -> str:
+    """The OUTERMOST library frame of a traceback: where the event loop called into the library (a transport / protocol callback,
+    Gateway._msg_handler, or an entity's _handle_msg that the dispatcher scheduled with call_soon)."""
+    for fr in traceback.extract_tb(e.__traceback__):
+        fn = fr.filename.replace("\\", "/")
+        if "/ramses_tx/" in fn or "/ramses_rf/" in fn:
+            pkg = "ramses_tx" if "/ramses_tx/" in fn else "ramses_rf"
+            return f"{pkg}/{fn.rsplit('/', 1)[-1]}:{fr.name}"
+    return "?"
+
+
 def entities(gwy: Any) -> list[tuple[str, Any]]:
     out: list[tuple[str, Any]] = []
     for d in list(gwy.devices):
@@ -193,6 +204,7 @@ async def run_history(loop: vclock.VLoop, hist: dict) -> dict:
 def run(hist: dict) -> dict:
     obs, loop = vclock.run(run_history, hist)
     obs["loop_exceptions"] = [{"message": c.get("message"), "exc": type(c.get("exception")).__name__ if c.get("exception") else None,
-                               "site": site_of(c["exception"]) if c.get("exception") else "?", "text": str(c.get("exception"))[:200]}
+                               "site": site_of(c["exception"]) if c.get("exception") else "?",
+                               "entry": entry_of(c["exception"]) if c.get("exception") else "?", "text": str(c.get("exception"))[:200]}
                               for c in loop.exc_contexts]
     return obs
